@@ -644,6 +644,9 @@ func (e *c01Env) signatureList(caseNo *int, foreign gen.KeyPair) {
 			return []any{a, b}, false, false
 		}},
 		{"duplicate-k1", func(s []any) ([]any, bool, bool) { return []any{s[0], s[0], s[1]}, true, true }},
+		// as many signatures as supplied keys, but all of them by one key
+		{"k1-twice-instead-of-k2", func(s []any) ([]any, bool, bool) { return []any{s[0], s[0]}, true, false }},
+		{"k2-three-times-instead-of-k1", func(s []any) ([]any, bool, bool) { return []any{s[1], s[1], s[1]}, false, true }},
 		{"replay-old-k1", func(s []any) ([]any, bool, bool) { return []any{oldSigs[0], s[1]}, false, true }},
 		{"replay-old-both", func(s []any) ([]any, bool, bool) { return []any{oldSigs[0], oldSigs[1]}, false, false }},
 		{"keyid-uppercase-junk", func(s []any) ([]any, bool, bool) {
@@ -795,6 +798,20 @@ func (e *c01Env) keySet(caseNo *int, foreign gen.KeyPair) {
 		{"k1-keytype-contradicts-material", map[string]intoto.Key{k1.Pub.KeyID: func() intoto.Key { k := k1.Pub; k.KeyType = "ecdsa"; k.Scheme = "ecdsa-sha2-nistp256"; return k }()}, false},
 		{"k2-without-public-material", map[string]intoto.Key{k2.Pub.KeyID: func() intoto.Key { k := k2.Pub; k.KeyVal.Public = ""; return k }()}, false},
 	}
+	// key objects that also carry a certificate: the public part is the key, the certificate is not
+	if ca, cerr := gen.NewCA(gen.CertSpec{CN: "c01-ca"}, nil); cerr == nil {
+		k2Cert, _, e1 := ca.Issue(gen.CertSpec{CN: "k2"}, k2.Public)
+		otherCert, _, e2 := ca.Issue(gen.CertSpec{CN: "other"}, otherEc.Public)
+		if e1 == nil && e2 == nil {
+			withCert := func(k intoto.Key, cert string) intoto.Key { k.KeyVal.Certificate = cert; return k }
+			cases = append(cases,
+				ks{"control-k2-with-its-own-certificate", map[string]intoto.Key{k1.Pub.KeyID: k1.Pub, k2.Pub.KeyID: withCert(k2.Pub, k2Cert)}, true},
+				ks{"k2-id-with-foreign-public-part-and-k2's-certificate", map[string]intoto.Key{k1.Pub.KeyID: k1.Pub, k2.Pub.KeyID: withCert(withMaterial(k2.Pub, otherEc.Pub), k2Cert)}, false},
+				ks{"only-k2-id-with-foreign-public-part-and-k2's-certificate", map[string]intoto.Key{k2.Pub.KeyID: withCert(withMaterial(k2.Pub, otherEc.Pub), k2Cert)}, false},
+				ks{"control-k2-with-a-foreign-certificate", map[string]intoto.Key{k1.Pub.KeyID: k1.Pub, k2.Pub.KeyID: withCert(k2.Pub, otherCert)}, true},
+			)
+		}
+	}
 	for _, k := range cases {
 		*caseNo++
 		if !c.Mine(*caseNo) {
@@ -816,7 +833,7 @@ func init() {
 	core.Register(&core.Property{
 		ID:    "C01",
 		Level: "exploration",
-		Rule: "for both wrappers x both entry points (the caller's step name alternating between empty and non-empty): (A) all 16x16 (signer subset, verifier subset) pairs over 4 keys of mixed type (Ed25519, ECDSA P-256, RSA-2048, ECDSA P-384) + nil map; (B) every single-point alteration (edit/replace/delete/insert/reorder at every JSON node; for every string also the alterations a normalising comparison would miss: LF->CRLF, LF->CR, leading/trailing blank, trailing newline, letter case) of the signed layout in the dumped file, reloaded with LoadMetadata, and in-memory alterations of Metablock.Signed; (C) alterations of the signature list (drop, swap ids, duplicate, replay of an older version, corrupt first/middle/last character, truncate, empty, case variants, copied signatures, several entries under one key id: corrupt + short junk, old-version + short junk, two corrupt, corrupt then valid) under 3 verifier sets; (D) alterations of the supplied key set (non-signer added, right id with foreign material, wrong type, empty, zero key); (E) one authentic metadata object verified four times with different parameter values (the inspection's marker name carries the value of the call); (F) files carrying a forged second copy of the signed part under another spelling of the member name (payload/Payload/PAYLOAD, signed/Signed/SIGNED, either order): the forged copy's inspection must never run. " +
+		Rule: "for both wrappers x both entry points (the caller's step name alternating between empty and non-empty): (A) all 16x16 (signer subset, verifier subset) pairs over 4 keys of mixed type (Ed25519, ECDSA P-256, RSA-2048, ECDSA P-384) + nil map; (B) every single-point alteration (edit/replace/delete/insert/reorder at every JSON node; for every string also the alterations a normalising comparison would miss: LF->CRLF, LF->CR, leading/trailing blank, trailing newline, letter case) of the signed layout in the dumped file, reloaded with LoadMetadata, and in-memory alterations of Metablock.Signed; (C) alterations of the signature list (drop, swap ids, duplicate, one key's signature repeated in place of the other key's, replay of an older version, corrupt first/middle/last character, truncate, empty, case variants, copied signatures, several entries under one key id: corrupt + short junk, old-version + short junk, two corrupt, corrupt then valid) under 3 verifier sets; (D) alterations of the supplied key set (non-signer added, right id with foreign material, wrong type, empty, zero key, key objects whose certificate field belongs to another key than their public part); (E) one authentic metadata object verified four times with different parameter values (the inspection's marker name carries the value of the call); (F) files carrying a forged second copy of the signed part under another spelling of the member name (payload/Payload/PAYLOAD, signed/Signed/SIGNED, either order): the forged copy's inspection must never run. " +
 			"Oracle = ground truth by construction (which key signed which content version) + marker files of the inspection command + hook-event trace automaton. non-trivial = the call reached verify_entry; distinct = (wrapper, entry point, case family, |S|, |V|, relation / alteration kind + JSON path class)",
 		Assumptions: []string{
 			"acceptance of authentic controls is required only as an observation floor (the property is an 'only if'); a rejected control is counted as inconclusive",
